@@ -160,6 +160,8 @@ def main():
     try:
         if cmd == "setup":
             return props.setup()
+        if cmd == "selftest":
+            return props.selftest()
         if cmd == "all":
             rc = 0
             for p in sorted(props.PROPS):
